@@ -236,7 +236,7 @@ def do_check(mod, prop, tier, seed, repo, workdir, jobs):
 
     replay_paths = []
     if new_viol:
-        rdir = os.path.join(ROOT, "replays", prop)
+        rdir = os.path.join(ROOT, "replays", prop) if repo == "/repo" else os.path.join(ROOT, ".work", "replays", prop)
         os.makedirs(rdir, exist_ok=True)
         seen_mech = {}
         for v in new_viol:
